@@ -8,7 +8,7 @@ import "sync"
 
 type zzP struct {
 	a, b, c, d, e sync.RWMutex
-	f, g          sync.Mutex
+	f, g, h, i    sync.Mutex
 	n             int
 }
 
@@ -64,7 +64,34 @@ func (p *zzP) sequential() {
 	p.g.Unlock()
 }
 
+// 6. GENERIC helper with a method constraint (refactoring R3): `items[l-1].Height()` on a type parameter is resolved through
+// the instantiation (zzH) and followed: h -> c, and NO unfollowed interface call on "T"
+type zzH struct{ p *zzP }
+
+func (x zzH) Height() uint64 { x.p.c.Lock(); defer x.p.c.Unlock(); return uint64(x.p.n) }
+func zzLast[T interface{ Height() uint64 }](items []T) uint64 {
+	if l := len(items); l > 0 {
+		return items[l-1].Height()
+	}
+	return 0
+}
+func (p *zzP) generic() uint64 {
+	p.h.Lock()
+	defer p.h.Unlock()
+	return zzLast([]zzH{{p}})
+}
+
+// 7. func-typed PARAMETER of a generic helper, the argument is a literal: followed: i -> c
+func zzApply[T any](x T, f func(T) uint64) uint64 { return f(x) }
+func (p *zzP) genericFn() uint64 {
+	p.i.Lock()
+	defer p.i.Unlock()
+	return zzApply(p, func(q *zzP) uint64 { q.lockC(); return 1 })
+}
+
 func zzLockProbe() {
+	zzp.generic()
+	zzp.genericFn()
 	zzp.reentrant()
 	zzp.nested()
 	zzp.de()
